@@ -183,7 +183,7 @@ class SnapshotMonitor:
 def plan(tier: str) -> dict:
     quick = tier == "quick"
     return {
-        "cases": 2100 if quick else 140000,
+        "cases": 6000 if quick else 140000,
         "shards": 16,
         "budget_s": 35 if quick else 540,
         "floors": {"raising_calls_judged": 6000 if quick else 200000, "judged:sort(nested,cyclic)": 300 if quick else 20000,
